@@ -165,6 +165,7 @@ func (s *Summary) Fail(what string, c interface{}, detail interface{}) {
 }
 
 func (s *Summary) Write(o *Opts) {
+	Done(o)
 	b, _ := json.MarshalIndent(s, "", " ")
 	if err := os.WriteFile(filepath.Join(o.Out, "summary.json"), b, 0o644); err != nil {
 		fmt.Fprintln(os.Stderr, err)
@@ -239,3 +240,14 @@ func SortedKeys(m map[string]int) []string {
 	sort.Strings(ks)
 	return ks
 }
+
+// Current records, before a case is run, what is about to be run.  If the harness process dies
+// while running it (a fatal error such as a stack overflow cannot be recovered), bin/check takes
+// this file as the failing input.
+func Current(o *Opts, desc interface{}) {
+	b, _ := json.Marshal(desc)
+	_ = os.WriteFile(filepath.Join(o.Out, "current.json"), b, 0o644)
+}
+
+// Done removes the marker written by Current (call when the whole run finished normally).
+func Done(o *Opts) { _ = os.Remove(filepath.Join(o.Out, "current.json")) }
